@@ -29,8 +29,9 @@ class Module(object):
         self.tree = ast.parse(src, filename=path)
         from . import alpha, normal
         # meaning-preserving surface forms are undone before any rule looks (core/normal.py, core/alpha.py)
+        self.alpha_mapped = alpha.canonicalise(self.tree, name)      # pure renamings first, so that N3 sees canonical names
         self.normal_mapped = normal.canonicalise(self.tree, name, stage="pre")
-        self.alpha_mapped = alpha.canonicalise(self.tree, name)
+        self.alpha_mapped += alpha.canonicalise(self.tree, name)
         self.normal_mapped += normal.canonicalise(self.tree, name, stage="post")
         for node in ast.walk(self.tree):
             for ch in ast.iter_child_nodes(node):
